@@ -1207,6 +1207,54 @@ def run_case(case, prop):
         return r1, viol
 
 
+def sibling_stats_case(rng):
+    """one decorator *instance* applied to two functions (a common idiom: memo = lru_cache(...); @memo twice).
+    The two wrappers share the decorator's cache object by construction, so they are given disjoint argument
+    universes and no eviction; each wrapper's info() must still account for exactly its own calls (C15)"""
+    universe = {'f': [0, 1, 2, 3, 4], 'g': ['a', 'b', 'c', 'd']}
+    calls = []
+    for _ in range(rng.choice([10, 20, 40])):
+        who = rng.choice(['f', 'g'])
+        calls.append([who, rng.choice(universe[who])])
+    case = {'sibling': True, 'algo': rng.choice(['inf', 'lru', 'lfu', 'mru', 'rr']), 'safe': rng.random() < 0.4,
+            'keymap': rng.choice([k for k in gen.keymap_cfgs() if k['flat']]), 'calls': calls}
+    return run_sibling(case)
+
+
+def run_sibling(case):
+    viol = []
+    algo, safe = case['algo'], case['safe']
+    mod = klepto.safe if safe else klepto
+    kw = {'keymap': gen.build_keymap(klepto, case['keymap'])}
+    if algo != 'inf':
+        kw['maxsize'] = 1000
+    deco = getattr(mod, algo + '_cache')(**kw)
+    logs = {'f': [], 'g': []}
+    f = deco(lambda x: (logs['f'].append(x), ('f', x))[1])
+    g = deco(lambda x: (logs['g'].append(x), ('g', x))[1])
+    done = {'f': 0, 'g': 0}
+    name = '%s%s_cache' % ('safe.' if safe else '', algo)
+    for n, (who, x) in enumerate(case['calls']):
+        fn, other = (f, g) if who == 'f' else (g, f)
+        o0 = tuple(other.info())[:3]
+        r = fn(x)
+        done[who] += 1
+        if r != (who, x):
+            return viol      # (colliding keys would be another subject)
+        if tuple(other.info())[:3] != o0:
+            viol.append({'property': 'C15', 'kind': 'sibling-call-moved-counters', 'mech': [], 'case': case, 'step': n,
+                         'msg': 'two functions decorated by one %s instance: a call of %s moved the counters of the '
+                                'other function %r -> %r' % (name, who, o0, tuple(other.info())[:3])})
+            return viol
+    for who, fn in (('f', f), ('g', g)):
+        i = fn.info()
+        if i.hit + i.miss + i.load != done[who] or i.miss != len(logs[who]):
+            viol.append({'property': 'C15', 'kind': 'sibling-counters-wrong', 'mech': [], 'case': case, 'step': -1,
+                         'msg': 'two functions decorated by one %s instance: %s completed %d calls and was evaluated '
+                                '%d times, info() = %r' % (name, who, done[who], len(logs[who]), tuple(i))})
+    return viol
+
+
 def directed_cases(prop):
     """hand-written witnesses of the recorded findings (same runner, same monitors): they keep the
     KNOWN-FINDING lines on every run and simply pass once a defect is repaired"""
@@ -1245,6 +1293,13 @@ def run_shard(prop, tier, seed, shard, nshards, opts):
     nt = NONTRIVIAL[prop]
     while i < n_total and time.time() - t0 < budget:
         rng = gen.make_rng('cachemon', prop, seed, i)
+        if prop == 'C15' and i % 16 == 3:
+            viol = sibling_stats_case(rng)
+            res['cases'] += 1
+            res['counters']['c15_sibling_function_cases'] = res['counters'].get('c15_sibling_function_cases', 0) + 1
+            res['violations'].extend(viol[:3])
+            i += nshards
+            continue
         if prop in REC_PROPS and i % 8 == 7:
             # re-entrant histories: the probe calls itself through the wrapper (recmon)
             from kv import recmon
@@ -1285,6 +1340,8 @@ def run_shard(prop, tier, seed, shard, nshards, opts):
 
 def replay(v, prop):
     case = v['case']
+    if case.get('sibling'):
+        return run_sibling(case)
     if case.get('rec'):
         from kv import recmon
         r, viol = recmon.run_case(case, prop)
